@@ -82,10 +82,20 @@ type ErrorListener struct {
 	*antlr.DefaultErrorListener
 	Error error
 	Data  string
+	count int // number of syntax errors seen so far
 }
+
+// maxSyntaxErrors bounds how many syntax errors are kept. Every message quotes
+// the whole input and wraps the previous ones, so keeping them all costs time and
+// memory quadratic in the number of errors (minutes and gigabytes for a few KiB
+// of garbage); the first few are all a reader can use anyway.
+const maxSyntaxErrors = 8
 
 // SyntaxError is called by ANTLR when a syntax error occurs.
 func (l *ErrorListener) SyntaxError(_ antlr.Recognizer, _ any, line, column int, msg string, e antlr.RecognitionException) {
+	if l.count++; l.count > maxSyntaxErrors {
+		return
+	}
 	if l.Error == nil {
 		l.Error = fmt.Errorf("line %d:%d %s >> text: %q", line, column, msg, l.Data)
 		return
